@@ -75,21 +75,28 @@ func c01Doc(content []byte) (map[string]any, bool) {
 				return "empty"
 			}
 			return "val"
+		case n.ShortTag() == "!!int", n.ShortTag() == "!!bool", n.ShortTag() == "!!float":
+			// pint refuses the type; yaml.v3 hands the scalar's text to Prometheus's string fields
+			return "other"
 		}
 		ok = false
 		return "coll"
 	}
 	dv := func(n *yaml.Node) string {
 		s := sv(n)
-		if s == "empty" || s == "val" {
+		if s == "empty" || s == "val" || s == "other" {
 			dur, err := model.ParseDuration(n.Value)
+			v := "valid"
 			switch {
 			case err != nil:
-				return "invalid"
+				v = "invalid"
 			case dur == 0:
-				return "zero"
+				v = "zero"
 			}
-			return "valid"
+			if s == "other" {
+				return "other" + strings.ToUpper(v[:1]) + v[1:]
+			}
+			return v
 		}
 		return s
 	}
@@ -99,7 +106,7 @@ func c01Doc(content []byte) (map[string]any, bool) {
 		return tmpl.ParseTest() == nil
 	}
 	mapV := func(n *yaml.Node, isAnnotations bool) map[string]any {
-		m := map[string]any{"kind": "absent", "dupKey": false, "collValue": false, "badName": false, "metricName": false, "badValue": false, "badTemplate": false, "nonEmpty": false}
+		m := map[string]any{"kind": "absent", "dupKey": false, "collValue": false, "badName": false, "metricName": false, "badValue": false, "badTemplate": false, "nonEmpty": false, "otherValue": false}
 		if n == nil {
 			return m
 		}
@@ -134,14 +141,17 @@ func c01Doc(content []byte) (map[string]any, bool) {
 			switch {
 			case v.Kind != yaml.ScalarNode:
 				m["collValue"] = true
-			case v.ShortTag() == "!!str":
+			case v.ShortTag() == "!!null":
+			case v.ShortTag() == "!!str", v.ShortTag() == "!!int", v.ShortTag() == "!!bool", v.ShortTag() == "!!float":
+				if v.ShortTag() != "!!str" {
+					m["otherValue"] = true
+				}
 				if !utf8.ValidString(v.Value) {
 					m["badValue"] = true
 				}
 				if !tmplOK(v.Value, true) {
 					m["badTemplate"] = true
 				}
-			case v.ShortTag() == "!!null":
 			default:
 				ok = false
 			}
@@ -195,10 +205,10 @@ func c01Doc(content []byte) (map[string]any, bool) {
 								g["limit"] = "int"
 							case gv.Kind == yaml.ScalarNode && gv.ShortTag() == "!!null":
 								g["limit"] = "null"
-							case gv.Kind != yaml.ScalarNode:
-								g["limit"] = "other"
+							case gv.Kind != yaml.ScalarNode, gv.ShortTag() == "!!str", gv.ShortTag() == "!!bool":
+								g["limit"] = "other" // neither loader takes it
 							default:
-								ok = false // '5' or 1.5: decoding rules of yaml.v3 for ints are outside the model
+								ok = false // a float: yaml.v3's float-to-int rules are outside the model
 							}
 						case "labels":
 							g["labels"] = mapV(gv, false)
